@@ -95,6 +95,7 @@ def fall_tail(g="g", l="l", rise=60, step=1):
         ("delay", r(2 * rise + 8), g),
         ("delay", 0, g, True),
         ("add", C52, l),
+        ("add", BR100, l),
         ("delay", r(rise / 2), l),
         ("delay", r(rise), l),
         ("target", "q1", l),
